@@ -53,7 +53,7 @@ def check_C20(tier, seed, replay=None):
             if not ok:
                 print("VIOLATION property=C20 replay=%s" % replay)
             return 0 if ok else 1
-        nscen = 76
+        nscen = 78
         rounds = 4 if tier == "quick" else 120
         total = nscen * rounds
         outdir = os.path.join(b.scratch, "out")
@@ -434,7 +434,7 @@ def check_hist(prop, tier, seed, replay=None):
             if not ok:
                 print("VIOLATION property=%s replay=%s" % (r.get("prop", prop), replay))
             return 0 if ok else 1
-        nops = 70
+        nops = 72
         if prop == "C10":
             total = nops * (48 if tier == "quick" else 2000)
         else:
@@ -504,7 +504,7 @@ def check_hist(prop, tier, seed, replay=None):
             plain = exes[-1]
             vdir = os.path.join(b.scratch, "vg")
             os.makedirs(vdir, exist_ok=True)
-            nvg = 70 if tier == "quick" else 70 * 12
+            nvg = 72 if tier == "quick" else 72 * 12
             subprocess.run([plain, "worker", str(seed ^ 0x7667), "0", str(nvg), tier, vdir, "100000"], env=dict(os.environ, M4SIM_DUMP="1"), stdout=subprocess.DEVNULL)
             progs = []
             for i in range(nvg):
